@@ -200,7 +200,7 @@ func main() {
 	rep := lib.NewReport("C13")
 	rep.Rule = "generated goroutine programs: one goroutine stores source data into a carrier (field, map, slice element, channel, global, captured cell, interface box, nested field, copy, append) that reached the other goroutine through a sharing mechanism (go argument, closure, global, channel of pointers, holder field); the other side reads it and calls the sink; both directions, synchronised and unsynchronised; ground truth = markers seen by the sinks in native runs under GOMAXPROCS 1/2/4/8; distinct = distinct shape"
 	rnd := lib.Rand("c13")
-	nProgs, per, runs := 2, 40, 8
+	nProgs, per, runs := 2, 24, 6
 	if lib.Thorough() {
 		nProgs, per, runs = 8, 50, 16
 	}
@@ -241,6 +241,11 @@ func main() {
 			for _, s := range gen.CTShares {
 				for _, v := range gen.CTVias {
 					scs = append(scs, &gen.TScenario{ID: len(scs), Dir: "g2m", Transport: "field", Share: s, Via: v, Sync: true})
+				}
+				// the creating goroutine stores inline, right after sharing the carrier: the only
+				// non-local instruction on the tainted path is that store
+				for _, t := range []string{"field", "map", "chan"} {
+					scs = append(scs, &gen.TScenario{ID: len(scs), Dir: "m2g", Transport: t, Share: s, Via: "inline", Sync: true})
 				}
 			}
 		}
